@@ -57,6 +57,24 @@ template <class T> struct PoolT {
         return out.empty() ? "-" : out;
     }
 
+    // an operation is applicable when its constructor target is not alive, every other object it names is alive and a
+    // store through data() stays within size() (the model's `pre`); shrunk or hand-written replays may violate this
+    bool applicable(const std::string &op) {
+        char c = op[0];
+        int o = atoi(op.c_str() + 1);
+        size_t comma = op.find(','), colon = op.find(':');
+        long a1 = comma != std::string::npos ? atol(op.c_str() + comma + 1) : 0;
+        if (o < 0 || o >= NOBJ) return false;
+        bool ctor = c == 'D' || c == 'U' || c == 'C' || c == 'M';
+        if (ctor ? live[o] : !live[o]) return false;
+        if (c == 'C' || c == 'M' || c == 'c' || c == 'm') { if (a1 < 0 || a1 >= NOBJ || !live[a1]) return false; }
+        if (c == 'W') {
+            size_t n = colon == std::string::npos || op.substr(colon + 1) == "-" ? 0 : (op.size() - colon - 1) / (2 * (sizeof(T) > 4 ? 4 : sizeof(T)));
+            if (a1 < 0 || (size_t)a1 + n > at(o)->size()) return false;
+        }
+        return std::string("DUCMXRcmAFW").find(c) != std::string::npos;
+    }
+
     void apply(const std::string &op) {
         char c = op[0];
         int o = atoi(op.c_str() + 1);
@@ -103,9 +121,11 @@ template <class T> static std::string run_hist(const Args &a) {
     bool is_fault = a.op == "fault";
     for (const auto &op : ops) {
         ++step;
+        if (!pool.applicable(op)) { pool.destroy_all(); return "invalid step=" + std::to_string(step); }
         pool.apply(op);
         out += "s" + std::to_string(step) + "=" + pool.snapshot() + " ";
     }
+    if (is_fault && !pool.applicable(a.get("op"))) { pool.destroy_all(); return "invalid step=" + std::to_string(step + 1); }
     if (is_fault) {
         // run the last operation with its k-th allocation failing; the pre-state is the one just built
         long k = (long)a.num("k");
@@ -249,8 +269,12 @@ static void gen(Emitter &em, const Options &opt) {
             menu.push_back("F" + std::to_string(o) + "," + std::to_string(L) + ",66"); menu.push_back("F" + std::to_string(o) + "," + std::to_string(2 * L) + ",67");
         }
         menu.push_back("X0;C0,1"); menu.push_back("X0;M0,1"); menu.push_back("X1;M1,2"); menu.push_back("X2;D2"); menu.push_back("X1;C1,0");
-        int depth = thorough ? 3 : 2;
-        for (size_t c0 : classes) for (size_t c1 : classes) for (size_t c2 : {(size_t)0, (size_t)L - 1, (size_t)2 * L}) {
+        // thorough: depth 3 for char and char32_t (third object short / long), depth 2 for char16_t and wchar_t, which share
+        // every line of code with them (8.5 M histories for depth 3 on all four types took 27 min; this is 3 M)
+        bool deep = thorough && (std::string(ty.w) == "8" || std::string(ty.w) == "32");
+        int depth = deep ? 3 : 2;
+        std::vector<size_t> third = deep ? std::vector<size_t>{(size_t)L - 1, (size_t)2 * L} : std::vector<size_t>{0, (size_t)L - 1, (size_t)2 * L};
+        for (size_t c0 : classes) for (size_t c1 : classes) for (size_t c2 : third) {
             Rng r2(c0 * 131 + c1 * 17 + c2 + 5);
             std::string pro = "U0:" + rand_units(r2, c0, ty.bits) + ";U1:" + rand_units(r2, c1, ty.bits) + ";U2:" + rand_units(r2, c2, ty.bits);
             std::vector<size_t> idx(depth, 0);
